@@ -2,42 +2,48 @@
  *
  * Tier B.  The URL is ASSEMBLED by the harness from a component tuple
  *      [proto ":"] ["//"] [user [":" passwd] "@"] host [":" port] ["/" path...] ["?" query]      or a bare path
- * with every optional part present/absent, total length <= URL_MAX (14) characters, characters of each
+ * with every optional part present/absent, total length <= URL_MAX characters, characters of each
  * component drawn from the component's alphabet over {a, ':', '/', '@', '?', '.', digit}:
  *      proto  {a,digit}+          user  {a,digit,.}+        passwd {a,digit,.,:}+     host {a,digit,.}+
- *      port   {digit}+            path  "/" {a,digit,.,/,:,@}*                        query {a,digit,.,:,@,?} *and '/' see below*
- * and parsed by the REAL url.c on top of the REAL str.c (no contracts: every loop unwound, unwinding
- * assertions on).  The parse result is compared with the tuple the text was assembled from; then
- * unparse, parse again, compare the components once more.
+ *      port   {digit}+            path  "/" {a,digit,.,/,:,@}*                        query {a,digit,.,:,@,?}+
+ * and parsed by the REAL url.c (every loop unwound, unwinding assertions on).  The parse result is
+ * compared with the tuple the text was assembled from; then unparse, parse again, compare again.
+ *
+ * DEVIATION from the plan ("real str.c included"): with the real str.c every component buffer is a
+ * malloc of symbolic size (strnlen of symbolic characters); ONE fully concrete shape of 15 characters was
+ * already a 6.4 M-variable, 15 GB SAT instance, the symbolic-shape run went past 34 GB.  The str calls
+ * are therefore EXACT EXECUTABLE MODELS here (section "str models": fixed-capacity buffers, the same
+ * length/capacity arithmetic as str.c, byte-exact copies) - the executable reading of the assumed str
+ * contracts of contracts/url.h.  str.c itself is agent str's C01.
  *
  * Input shaping (grammar ambiguities, not defects): without a protocol the text must not start with
  * alnum* ':' (that IS a protocol by the grammar); a bare path must not start with "//"; '//' only in
- * front of a host; user only with a host.
- * Lookups: getprotobyname fails (the protocol word is not itself an IP protocol: that case is unit
- * parse.proto_found); getservbyname returns nothing or a record with an arbitrary 16-bit port, the
- * expected port text is then its decimal rendering (exact "%d" model of snprintf below).
+ * front of a host; user/port only with a host.
+ * Lookups: getprotobyname fails at the first call (the protocol word is not itself an IP protocol: that
+ * case is unit parse.proto_found); getservbyname returns nothing or a record with an arbitrary 16-bit
+ * port, the expected port text is then its decimal rendering (exact "%d" model of snprintf below).
  *
- *   exact.parse        query over {a,digit,.,:,@,?}        parse result == tuple
- *   exact.parse_qslash query may also contain '/'          parse result == tuple   (RFC 3986 allows it)
- *   exact.roundtrip    as exact.parse, URL_MAX 10          parse(unparse(parse(t))) == parse(t), text canonical
+ *   exact.parse        parse result == tuple
+ *   exact.parse_qslash the same with '/' allowed in a query that follows a host directly (RFC 3986 allows it)
+ *   exact.roundtrip    parse(unparse(parse(t))) == parse(t)
  */
 /*@unit
 name: exact.parse
 define: U_PARSE, URL_MAX=14, VERIF_OWN_STRCHR, VERIF_OWN_STRLEN, VERIF_OWN_SNPRINTF, VERIF_OWN_LOOKUPS, VERIF_NO_ASSUMED_STR_CONTRACTS
-src: url.c, str.c
+src: url.c
 tier: B
-bound: URL text <= 14 characters over {a,:,/,@,?,.,digit}, each optional component present/absent; real str.c; loops unwound 16 with unwinding assertions
+bound: URL text <= 14 characters over {a,:,/,@,?,.,digit}, each component <= 5 characters, each optional component present/absent; exact executable str models instead of str.c; loops unwound 16 with unwinding assertions
 unwind: 16
 backend: cadical
 timeout: 280
-funcs: spif_url_new_from_ptr, spif_url_init_from_ptr, spif_url_parse, spif_str_new_from_buff, spif_str_new_from_ptr, spif_str_init_from_buff, spif_str_init_from_ptr
+funcs: spif_url_new_from_ptr, spif_url_init_from_ptr, spif_url_parse
 */
 /*@unit
 name: exact.parse_qslash
 define: U_PARSE, U_QUERY_SLASH, URL_MAX=14, VERIF_OWN_STRCHR, VERIF_OWN_STRLEN, VERIF_OWN_SNPRINTF, VERIF_OWN_LOOKUPS, VERIF_NO_ASSUMED_STR_CONTRACTS
-src: url.c, str.c
+src: url.c
 tier: B
-bound: URL text <= 14 characters, query may contain '/', no path component; real str.c; loops unwound 16 with unwinding assertions
+bound: URL text <= 14 characters, query may contain '/', no path component; exact executable str models; loops unwound 16 with unwinding assertions
 unwind: 16
 backend: cadical
 timeout: 280
@@ -45,14 +51,14 @@ funcs: spif_url_new_from_ptr, spif_url_parse
 */
 /*@unit
 name: exact.roundtrip
-define: U_ROUNDTRIP, URL_MAX=10, VERIF_OWN_STRCHR, VERIF_OWN_STRLEN, VERIF_OWN_SNPRINTF, VERIF_OWN_LOOKUPS, VERIF_NO_ASSUMED_STR_CONTRACTS
-src: url.c, str.c
+define: U_ROUNDTRIP, URL_MAX=14, VERIF_OWN_STRCHR, VERIF_OWN_STRLEN, VERIF_OWN_SNPRINTF, VERIF_OWN_LOOKUPS, VERIF_NO_ASSUMED_STR_CONTRACTS
+src: url.c
 tier: B
-bound: URL text <= 10 characters over {a,:,/,@,?,.,digit}, each optional component present/absent; real str.c incl. realloc; loops unwound 24 with unwinding assertions
+bound: URL text <= 14 characters over {a,:,/,@,?,.,digit}, each component <= 5 characters, each optional component present/absent; exact executable str models; loops unwound 24 with unwinding assertions
 unwind: 24
 backend: cadical
 timeout: 280
-funcs: spif_url_new_from_ptr, spif_url_new_from_str, spif_url_parse, spif_url_unparse, spif_str_append, spif_str_append_char, spif_str_append_from_ptr, spif_str_done
+funcs: spif_url_new_from_ptr, spif_url_new_from_str, spif_url_parse, spif_url_unparse
 */
 #define VERIF_OWN_STRDUP
 #define NET_EXACT_LIBC
@@ -106,14 +112,88 @@ struct servent *getservbyname(const char *name, const char *proto)
     return &vg_servent;
 }
 
-#include "src/str.c"
-#undef SPIF_CLASS_VAR
-#define SPIF_CLASS_VAR(type) spif_ ## type ## _class
-#include "src/url.c"
+/* ---- str models: exact, executable, fixed capacity ------------------------------------------------- */
+#define MCAP 40                     /* bytes per model buffer: >= any size field reached within the bound */
+static SPIF_CONST_TYPE(strclass) s_class;       /* identity only */
+SPIF_TYPE(class) SPIF_CLASS_VAR(str) = (spif_class_t) &s_class;
+SPIF_TYPE(strclass) SPIF_STRCLASS_VAR(str) = &s_class;
 spif_bool_t spif_obj_set_class(spif_obj_t self, spif_class_t cls) { self->cls = cls; return TRUE; }
+#define MCOPY (URL_MAX + 1)         /* no single copy within the bound is longer than the text + NUL */
+static void m_copy(char *d, const char *s, spif_stridx_t n)
+{
+    int i;
+    __CPROVER_assert(n >= 0 && n <= MCOPY, "str model: copy length within the bound");
+    for (i = 0; i < MCOPY; i++) if (i < n) d[i] = s[i];
+}
+spif_bool_t spif_str_init(spif_str_t self)
+{ self->parent.cls = SPIF_CLASS_VAR(str); self->s = NULL; self->len = 0; self->size = 0; return TRUE; }
+spif_bool_t spif_str_init_from_ptr(spif_str_t self, spif_charptr_t old)
+{
+    if (old == NULL) return spif_str_init(self);
+    self->parent.cls = SPIF_CLASS_VAR(str);
+    self->len = strlen(old); self->size = self->len + 1;
+    __CPROVER_assert(self->size <= MCAP, "str model: capacity suffices within the bound");
+    self->s = malloc(MCAP); m_copy(self->s, old, self->size);
+    return TRUE;
+}
+spif_bool_t spif_str_init_from_buff(spif_str_t self, spif_charptr_t buff, spif_stridx_t size)
+{
+    self->parent.cls = SPIF_CLASS_VAR(str);
+    self->size = size;
+    self->len = buff ? (spif_stridx_t) strnlen(buff, size) : 0;
+    if (self->size == self->len) self->size++;
+    __CPROVER_assert(self->size >= 0 && self->size <= MCAP, "str model: capacity suffices within the bound");
+    self->s = malloc(MCAP);
+    if (buff) m_copy(self->s, buff, self->len);
+    self->s[self->len] = 0;
+    return TRUE;
+}
+spif_str_t spif_str_new_from_ptr(spif_charptr_t old) { spif_str_t r = malloc(sizeof(spif_const_str_t)); spif_str_init_from_ptr(r, old); return r; }
+spif_str_t spif_str_new_from_buff(spif_charptr_t b, spif_stridx_t n) { spif_str_t r = malloc(sizeof(spif_const_str_t)); spif_str_init_from_buff(r, b, n); return r; }
+spif_bool_t spif_str_done(spif_str_t self)
+{ if (self->size) { free(self->s); self->len = 0; self->size = 0; self->s = NULL; } return TRUE; }
+spif_bool_t spif_str_del(spif_str_t self) { spif_str_done(self); free(self); return TRUE; }
+spif_bool_t spif_str_append(spif_str_t self, spif_str_t other)
+{
+    if (other->size && other->len) {
+        __CPROVER_assert(self->s != NULL, "str model: append on the non-empty state");
+        self->size += other->size - 1;
+        __CPROVER_assert(self->size <= MCAP, "str model: capacity suffices within the bound");
+        m_copy(self->s + self->len, other->s, other->len + 1);
+        self->len += other->len;
+    }
+    return TRUE;
+}
+spif_bool_t spif_str_append_char(spif_str_t self, spif_char_t c)
+{
+    __CPROVER_assert(self->s != NULL, "str model: append_char on the non-empty state");
+    self->len++;
+    if (self->size <= self->len) self->size++;
+    __CPROVER_assert(self->size <= MCAP, "str model: capacity suffices within the bound");
+    self->s[self->len - 1] = c; self->s[self->len] = 0;
+    return TRUE;
+}
+spif_bool_t spif_str_append_from_ptr(spif_str_t self, spif_charptr_t other)
+{
+    spif_stridx_t len = strlen(other);
+    if (len) {
+        __CPROVER_assert(self->s != NULL, "str model: append_from_ptr on the non-empty state");
+        self->size += len;
+        __CPROVER_assert(self->size <= MCAP, "str model: capacity suffices within the bound");
+        m_copy(self->s + self->len, other, len + 1);
+        self->len += len;
+    }
+    return TRUE;
+}
+spif_cmp_t spif_str_comp(spif_str_t a, spif_str_t b) { return SPIF_CMP_EQUAL; }   /* not reached */
+
+#include "src/url.c"
 
 /* ---- assembling ---------------------------------------------------------------------------------- */
-#define CMAX 6                      /* longest single component */
+#ifndef CMAX
+#define CMAX 5
+#endif
+//                      /* longest single component */
 typedef struct { _Bool has; unsigned char len; char c[CMAX + 1]; } comp_t;
 enum { A_ALNUM = 1, A_DOT = 2, A_COLON = 4, A_SLASH = 8, A_AT = 16, A_QM = 32, A_DIGITONLY = 64 };
 
